@@ -13,6 +13,8 @@ mod traits;
 
 #[cfg(mos_verif)]
 pub(crate) use crate::lsp::formatting::verif_get_text_edits;
+#[cfg(mos_verif)]
+pub(crate) use crate::lsp::semantic_highlighting::verif_to_deltas;
 
 use crate::config::Config;
 use crate::diagnostic_emitter::MosResult;
